@@ -214,6 +214,21 @@ func blExec(f *ssa.Function, args []blVal) ([]blVal, int, string) {
 						} else {
 							return nil, 0, "equality with a non-zero constant is not a function of the bit length"
 						}
+					case token.OR:
+						// bitlen(v | c) = max(bitlen(v), bitlen(c)) for a constant c >= 0 - only where the operand
+						// still is the 64-bit value itself (byte(v)|0x80 goes through a Convert and stays opaque)
+						if b.n >= 0 {
+							l := int64(0)
+							for t := b.n; t > 0; t >>= 1 {
+								l++
+							}
+							if a.n > l {
+								l = a.n
+							}
+							env[x] = blVal{blBits, l}
+						} else {
+							env[x] = blVal{kind: blOpaque}
+						}
 					default:
 						env[x] = blVal{kind: blOpaque} // byte(v)|0x80 and the like: values of emitted bytes are not tracked
 					}
